@@ -354,6 +354,13 @@ def report(a, seed, mine, results, t0):
             lines.append('VIOLATION property=%s replay=%s obligation=%s %s%s' % (
                 prop, os.path.relpath(path, HERE), name, ('(' + why[:160] + ')') if okc else '',
                 '' if okc else ' no-failing-input-found'))
+    # native bounded stand-ins (labelled bounded, never counted): real code under CPython, see harness/
+    nb_table = []
+    if prop in NATIVE_BOUNDED and not a.only:
+        try:
+            nb_table = native_bounded(prop, a, known, known_hits, lines, seed)
+        except Exception as e:
+            checker_errors.append('native bounded harness failed: %s' % e)
     for what, n in known_hits.items():
         print('KNOWN-FINDING: property=%s %s (%d failing path instance(s), all replayed and matched)'
               % (prop, what, n))
@@ -393,7 +400,7 @@ def report(a, seed, mine, results, t0):
                 for k, v in sorted(named.items())],
             'bounded_checks': [
                 {'name': k, 'bound': v['bounded'], 'instances': v['n'], 'discharged': v['discharged'],
-                 'failed': v['failed']} for k, v in sorted(bounded.items())],
+                 'failed': v['failed']} for k, v in sorted(bounded.items())] + nb_table,
             'sentinels': sentinels,
             'known_findings': [{'what': w, 'instances': n} for w, n in known_hits.items()],
             'cross_check': xc,
@@ -412,7 +419,7 @@ def report(a, seed, mine, results, t0):
     print('%s: %d named obligations, %d discharged, %d path-level VCs, %d contracts, %d known-finding obligations, '
           '%d bounded; cross-check %d/%d; wall %.1fs' % (
               prop, n_ob, n_dis, ev['coverage']['path_level_vcs'], len(mine), len(known_names & set(named)),
-              len(bounded), xc['agree'], xc['inputs'], wall))
+              len(bounded) + len(nb_table), xc['agree'], xc['inputs'], wall))
     if a.verbose:
         for k, v in sorted(ob.items()):
             if v['discharged'] != v['n']:
@@ -430,8 +437,61 @@ def report(a, seed, mine, results, t0):
     return 0
 
 
+NATIVE_BOUNDED = {'C01': 'harness/bounded_tags.py', 'C02': 'harness/bounded_tags.py',
+                  'C03': 'harness/bounded_tags.py'}
+
+
+def native_bounded(prop, a, known, known_hits, lines, seed):
+    """runs the bounded stand-in harness under /venv/bin/python on the real code; failures are violations with the
+    concrete failing case as replay input, unless a known finding's witness (an expression over the case) matches"""
+    import subprocess
+    script = os.path.join(HERE, NATIVE_BOUNDED[prop])
+    out = subprocess.run(['/venv/bin/python', script, prop, '--tier', a.tier, '--jobs', str(a.jobs)],
+                         capture_output=True, text=True, timeout=3000)
+    if out.returncode != 0:
+        raise RuntimeError('exit %d: %s' % (out.returncode, out.stderr[-400:]))
+    d = json.loads(out.stdout)
+    table = []
+    if not d['obligations']:
+        raise RuntimeError('no bounded obligations evaluated')
+    for nm, e in sorted(d['obligations'].items()):
+        table.append({'name': nm, 'bound': d['bound'], 'instances': e['n'], 'discharged': e['n'] - e['failed'],
+                      'failed': e['failed'], 'engine': 'CPython run of the real code against a simulated tag memory'})
+        for f in e['fails']:
+            matched = None
+            for kf in known:
+                if kf['obligation'] == nm:
+                    try:
+                        if eval(kf['witness'], {}, dict(f['case'])):
+                            matched = kf
+                    except Exception:
+                        pass
+            if matched is not None:
+                known_hits[matched['what']] = known_hits.get(matched['what'], 0) + 1
+                continue
+            h = hashlib.sha1((nm + json.dumps(f['case'], sort_keys=True)).encode()).hexdigest()[:10]
+            path = os.path.join(HERE, 'evidence', 'replay', '%s-%s.json' % (prop, h))
+            json.dump({'property': prop, 'obligation': nm, 'kind': 'native-bounded', 'script': NATIVE_BOUNDED[prop],
+                       'case': f['case'], 'observed': f['detail'], 'confirmed': True, 'tier': a.tier, 'seed': seed},
+                      open(path, 'w'), indent=1)
+            ln = 'VIOLATION property=%s replay=%s obligation=%s (bounded stand-in, real code under CPython: %s)' % (
+                prop, os.path.relpath(path, HERE), nm, f['detail'][:160])
+            if not any(nm in x for x in lines):
+                lines.append(ln)
+    return table
+
+
 def do_replay(a, allc):
     rec = json.load(open(a.replay if os.path.isabs(a.replay) else os.path.join(HERE, a.replay)))
+    if rec.get('kind') == 'native-bounded':
+        import subprocess
+        out = subprocess.run(['/venv/bin/python', os.path.join(HERE, rec['script']), '--case',
+                              json.dumps(rec['case'])], capture_output=True, text=True, timeout=600)
+        res = json.loads(out.stdout) if out.returncode == 0 else []
+        bad = [r for r in res if r['obligation'] == rec['obligation'] and not r['ok']]
+        print(json.dumps({'obligation': rec['obligation'], 'case': rec['case'], 'observed': res,
+                          'reproduced': bool(bad)}, indent=1))
+        return 1 if bad else 0
     obs = native_replay([rec['case']])[0]
     c = _BYNAME.get(rec['contract'])
     name = rec['obligation']
